@@ -1,17 +1,18 @@
 #!/bin/bash
-# usage: tools/confirm_seed.sh <PROP> [<pkgdir>]
-# Confirms a sub-agent's seeded change in its scratch worktree /tmp/wt/<PROP>:
+# usage: [WTROOT=/tmp/wt2 SUFFIX=b] tools/confirm_seed.sh <PROP> [<pkgdir>]
+# Confirms a sub-agent's seeded change in its scratch worktree $WTROOT/<PROP> (default /tmp/wt); result goes to seeded/<PROP>$SUFFIX:
 #   demo fails with the change, passes without it, pinned suite passes with it.
 # On success copies patch.diff, the demo and meta.json (plus confirmation) to /verif/seeded/<PROP>/,
 # then removes the worktree. Development aid only; never touches /repo's working tree.
 set -u
 P="$1"; PKG="${2:-.}"
-WT=/tmp/wt/$P
+WTROOT="${WTROOT:-/tmp/wt}"; SUFFIX="${SUFFIX:-}"; D="$P$SUFFIX"
+WT=$WTROOT/$P
 VERIF=/verif
 . $VERIF/bin/env.sh
 export CGO_ENABLED=1
-SD=/tmp/wt/seeds/$P
-mkdir -p /tmp/wt/seeds
+SD=$WTROOT/seeds/$P
+mkdir -p $WTROOT/seeds
 if [ -d "$WT/SEEDED" ]; then rm -rf "$SD"; mv "$WT/SEEDED" "$SD"; fi
 [ -f "$SD/patch.diff" ] || { echo "no patch for $P"; exit 2; }
 DEMO=$(ls "$SD"/*_test.go | head -1)
@@ -19,18 +20,18 @@ cd "$WT" || exit 2
 git checkout -q -- . ; git clean -fdq
 git apply "$SD/patch.diff" || { echo "$P: patch does not apply to its own base"; exit 2; }
 cp "$DEMO" "$WT/$PKG/"
-go test -vet=off -count=1 -timeout 5m -run "TestSeeded$P" "./$PKG" > /tmp/wt/seeds/$P.with.log 2>&1; WITH=$?
+go test -vet=off -count=1 -timeout 5m -run "TestSeeded$P" "./$PKG" > $WTROOT/seeds/$P.with.log 2>&1; WITH=$?
 git apply -R "$SD/patch.diff"
-go test -vet=off -count=1 -timeout 5m -run "TestSeeded$P" "./$PKG" > /tmp/wt/seeds/$P.without.log 2>&1; WITHOUT=$?
+go test -vet=off -count=1 -timeout 5m -run "TestSeeded$P" "./$PKG" > $WTROOT/seeds/$P.without.log 2>&1; WITHOUT=$?
 git apply "$SD/patch.diff"
 rm -f "$WT/$PKG/$(basename "$DEMO")"
-$VERIF/tools/suite.sh "$WT" > /tmp/wt/seeds/$P.suite.log 2>&1; SUITE=$?
+$VERIF/tools/suite.sh "$WT" > $WTROOT/seeds/$P.suite.log 2>&1; SUITE=$?
 echo "$P: demo-with-change exit=$WITH (want !=0)  demo-without exit=$WITHOUT (want 0)  suite-with-change exit=$SUITE (want 0)"
-tail -3 /tmp/wt/seeds/$P.suite.log
+tail -3 $WTROOT/seeds/$P.suite.log
 if [ $WITH -ne 0 ] && [ $WITHOUT -eq 0 ] && [ $SUITE -eq 0 ]; then
-  mkdir -p $VERIF/seeded/$P
-  cp "$SD/patch.diff" "$DEMO" $VERIF/seeded/$P/
-  python3 - "$SD/meta.json" "$VERIF/seeded/$P/meta.json" "$P" "$PKG" <<'PY'
+  mkdir -p $VERIF/seeded/$D
+  cp "$SD/patch.diff" "$DEMO" $VERIF/seeded/$D/
+  python3 - "$SD/meta.json" "$VERIF/seeded/$D/meta.json" "$P" "$PKG" <<'PY'
 import json,sys
 try: m=json.load(open(sys.argv[1]))
 except Exception as e: m={"note":"agent meta unreadable: %s"%e}
@@ -38,7 +39,7 @@ m["confirmed_by_me"]={"demo_fails_with_change":True,"demo_passes_without_change"
   "how":"tools/confirm_seed.sh %s %s: go test -run TestSeeded%s with and without patch.diff in a scratch worktree; tools/suite.sh (BASELINE stable_pass comparison) with the patch applied"%(sys.argv[3],sys.argv[4],sys.argv[3])}
 json.dump(m,open(sys.argv[2],"w"),indent=1)
 PY
-  echo "$P: CONFIRMED -> /verif/seeded/$P"
+  echo "$P: CONFIRMED -> /verif/seeded/$D"
 else
   echo "$P: NOT CONFIRMED"
 fi
